@@ -5,7 +5,7 @@
 From Coq Require Import String.
 From Coq Require Import List Ascii ZArith Bool.
 From CGV Require Import Base.PyBase Base.PyVal Base.NxGraph Dialect.DialectImpl Reader.ReaderImpl Reader.Grammar
-     Reader.ReaderCheck Gen.ReaderEnumGen Reader.ReaderSmall.
+     Reader.ReaderCheck Reader.Lin Reader.ReaderSim Reader.ReaderMult Reader.ReaderAst Gen.ReaderEnumGen Reader.ReaderSmall.
 Import ListNotations.
 Open Scope Z_scope.
 
@@ -38,6 +38,32 @@ Proof.
   vm_compute. repeat split; discriminate.
 Qed.
 
+(** UNBOUNDED, partial (C04_partial).  For every flat string of the grammar (Reader/Lin.v: chains, node
+    multipliers without a following symbol, nested branches in which no node closes two branches, every
+    bond-symbol position, single-digit and %nn ring bonds with symbols on the opening marker; strings in
+    braces) the reader model returns EXACTLY what the token machine denotes: the same graph with the same
+    node and edge iteration orders, or the same error (dangling ring, duplicate edge, annotation errors).
+    Missing from the full statement: the three defect classes (refuted below), texts without braces, and
+    the step from [wf] + "outside the classes" to [flat_ok], which is only established for the
+    enumerated ASTs (C04_flat_covers_small). *)
+Theorem C04_flat_strings : forall fo l, lins_ok fo l = true ->
+  read_cgsmiles fo ("{"%char :: lins_str l ++ ["}"%char]) = denote_lin fo l.
+Proof. exact reader_sim_lin. Qed.
+Theorem C04_partial : forall fo a, flat_ok fo a = true -> read_cgsmiles fo (print true a) = denote fo a.
+Proof. exact reader_sim_ast. Qed.
+(** non-vacuity: {[#A;q=1]=%12([#B]|3([#C]-1)$[#D]1)[#F][#E]%12} is in the domain and denotes a graph *)
+Example C04_partial_nonvacuous :
+  let a := [Item (S "A;q=1") [(Some SDouble, MPct [1%nat; 2%nat])] None None
+              [Branch [Item (S "B") [] (Some [3%nat]) None [Branch [Item (S "C") [(Some SSingle, MDigit 1)] None None []] None (Some SQuad)];
+                       Item (S "D") [(None, MDigit 1)] None None []] None None];
+            nd "F"; Item (S "E") [(None, MPct [1%nat; 2%nat])] None None []] in
+  let fo := fo_of_table [(S "1", Some (S "1.0"))] in
+  flat_ok fo a = true /\ wf fo a = true /\ exists g, denote fo a = Ok g /\ length (nodes_data g) = 8%nat.
+Proof. vm_compute. repeat split. eexists. split; reflexivity. Qed.
+Theorem C04_flat_covers_small :
+  forallb (fun a => negb (Nat.eqb (class_C04 true a) 0) || flat_ok fo_none a) small_c04 = true.
+Proof. exact C04_flat_small_list. Qed.
+
 (** BOUNDED: every AST of the complete enumerated list [small_c04] (bound = the enumerator parameters
     recorded in Gen/ReaderEnumGen.v and Reader/ReaderSmall.v) is in the grammar, and outside the three
     defect classes the model returns exactly the denoted graph (same iteration orders) *)
@@ -46,6 +72,8 @@ Proof. exact C04_small_list. Qed.
 Theorem C04_small_not_vacuous : (5000 <=? length (filter (fun a => Nat.eqb (class_C04 true a) 0) small_c04))%nat = true.
 Proof. exact C04_small_nonvacuous. Qed.
 
+Print Assumptions C04_flat_strings.
+Print Assumptions C04_partial.
 Print Assumptions C04_small.
 Print Assumptions C04_refuted_double_close.
 Print Assumptions C04_refuted_pct_at_end.
